@@ -160,7 +160,7 @@ PENDING = {
 # what was added to each check after its description above was written (seed waves 4-10; DESIGN §11b)
 ADDED = {
     "C01": "CLI part: a dry run and a run whose submission the scheduler rejects between two `status` calls change nothing; non-sequence containers (dict views, UserDict, mappingproxy, re-iterables).",
-    "C02": "CLI sub-bound through the real `gwf run <selection>` incl. patterns matching nothing; the scheduler rejecting the k-th submission of a run (nothing downstream of the rejected target is submitted, prerequisites of what is submitted stay exact). Preview-differential family: for every (workflow, hashing on/off, fresh/empty project, one disturbance: script edited / source touched / output deleted) the real run submits the same jobs with the same prerequisites after any prefix of previews (`run --dry-run`, `status`) as without them, and an edited script alone makes exactly that target and its dependents run. History family: `gwf run`, scheduler runs the dependencies of X, X started or not, its outputs written or not, X cancelled / failed / timed out / completed, forgotten by the queue or not, on Slurm (accounting on/off), SGE and LSF; the second `gwf run` must submit exactly the reference plan of that world with exact prerequisite ids.",
+    "C02": "CLI sub-bound through the real `gwf run <selection>` incl. patterns matching nothing; the scheduler rejecting the k-th submission of a run (nothing downstream of the rejected target is submitted, prerequisites of what is submitted stay exact). Preview-differential family: for every (workflow, hashing on/off, fresh/empty project, one disturbance: script edited / source touched / output deleted) the real run submits the same jobs with the same prerequisites after any prefix of previews (`run --dry-run`, `status`) as without them, and the run without previews submits exactly the reference plan of that world. History family: `gwf run`, scheduler runs the dependencies of X, X started or not, its outputs written or not, X cancelled / failed / timed out / completed, forgotten by the queue or not, on Slurm (accounting on/off), SGE and LSF; the second `gwf run` must submit exactly the reference plan of that world with exact prerequisite ids.",
     "C03": "9 spellings (incl. trailing slash), 9 container shapes (incl. UserDict, mappingproxy, pathlib and non-pathlib path objects), two file names differing only in Unicode normal form, absolute-but-unnormalised working dirs, a working directory reached through a symbolic link on disk, `gwf info NAME`; thorough: all 4-target assignments.",
     "C04": "Relative `..` spellings, reconvergent layered DAGs, real-file-system input kinds (file, directory, symlinks, dangling, symlink loop, a path below a regular file), stale logs of removed targets in the CLI family.",
     "C05": "Shortcut workflows (redundant edge whose far end sorts later), mixed-command histories, local backend through gwf's real Client, fresh-process tier.",
